@@ -377,6 +377,8 @@ def descEq (s o : Option TensorDesc) : Bool :=
 
 /-- operand / result lists, position by position (`none` = operand omitted) -/
 def descsEq (a b : List (Option TensorDesc)) : Bool :=
+  let a := (a.reverse.dropWhile Option.isNone).reverse      -- trailing omitted operands say nothing
+  let b := (b.reverse.dropWhile Option.isNone).reverse
   a.length == b.length && (a.zip b).all fun (x, y) => descEq x y
 
 /-- One operator of the SOURCE graph lying between the tensor the output operator reads and the tensor the source
@@ -409,10 +411,14 @@ structure Alias where
 
 def Alias.ok (a : Alias) : Bool := a.sameSignature && !a.chain.isEmpty && a.chain.all Link.isIdentity
 
+/-- trailing omitted operands (`~`) say nothing: `[x, w]` and `[x, w, -1]` are the same operand list (the writer emits
+    the bias slot of a bias-less convolution as -1; C11 reads it the same way) -/
+def stripOmitted (l : List String) : List String := (l.reverse.dropWhile (· == "~")).reverse
+
 def unchangedOnCpu (source output : List String) (aliases : List Alias := []) : Bool :=
   unchangedCore source output fun i i' =>
-    let a := i.splitOn ","
-    let b := i'.splitOn ","
+    let a := stripOmitted (i.splitOn ",")
+    let b := stripOmitted (i'.splitOn ",")
     a.length == b.length && (a.zip b).all fun (x, y) =>
       x == y || aliases.any fun al => al.srcName == x && al.outName == y && al.ok
 
